@@ -49,6 +49,11 @@ theorem openReader_rest (b : Buf) (off : Nat) : (openReader b off).rest = (conte
     by_cases h : off > data.length
     · rw [if_pos h, List.drop_eq_nil_of_le (Nat.le_of_lt h)]; rfl
     · rw [if_neg h]; simp [RSrc.rest]
+  | readerAt data suf =>
+    simp only [openReader, content]
+    by_cases h : off > data.length
+    · rw [if_pos h, List.drop_eq_nil_of_le (Nat.le_of_lt h)]; rfl
+    · rw [if_neg h]; simp [RSrc.rest]
   | error e => simp [openReader, content, RSrc.rest]
   | chunks d s =>
     simp only [openReader, content]
@@ -79,6 +84,11 @@ theorem openReader_owns (b : Buf) (off : Nat) : Owns b (openReader b off) := by
   intro e h
   cases b with
   | bytes data =>
+    simp only [openReader] at h
+    by_cases hh : off > data.length
+    · rw [if_pos hh] at h; simp [RSrc.term] at h; subst h; simp [Own, Err.isIntegrity]
+    · rw [if_neg hh] at h; simp [RSrc.term] at h
+  | readerAt data suf =>
     simp only [openReader] at h
     by_cases hh : off > data.length
     · rw [if_pos hh] at h; simp [RSrc.term] at h; subst h; simp [Own, Err.isIntegrity]
